@@ -437,6 +437,10 @@ thread_local! {
   static UNMOUNT: Cell<u32> = const { Cell::new(0) };
   /// real ranges (arena offsets) zero-filled by the arena during the current op (Hook::zero)
   static ZEROS: RefCell<Vec<(usize, usize)>> = const { RefCell::new(Vec::new()) };
+  /// the arena bytes as they were when this thread's latest zero-fill was about to be written, and the index of
+  /// its entry in `ZEROS`: compared with the memory at this thread's next hook call / at the end of its op (only
+  /// this thread has run in between), so that the range reported is the one REALLY written, not the nominal one
+  static ZSNAP: RefCell<Option<(Vec<u8>, usize)>> = const { RefCell::new(None) };
   /// a `clear` / `rewind` of this thread has not yet performed its first atomic access: the handles of the case
   /// are invalidated when that access is granted (or when the op returns without having made one)
   static INVAL: Cell<Option<ShPtr>> = const { Cell::new(None) };
@@ -530,6 +534,9 @@ impl Hook for SchedHook {
         Decision::Proceed
       }
       Role::Worker { epoch, tid } => {
+        if a.width != 0 {
+          settle_zsnap();
+        }
         let mut g = gl();
         if g.epoch == epoch {
           g.th[tid].st = St::Parked;
@@ -572,6 +579,7 @@ impl Hook for SchedHook {
         let g = gl();
         (g.loc.base, g.napoints && g.epoch == epoch)
       };
+      settle_zsnap();
       let lo = addr.wrapping_sub(base);
       if len > 0 {
         ZEROS.with(|z| z.borrow_mut().push((lo, lo + len)));
@@ -591,6 +599,18 @@ impl Hook for SchedHook {
         };
         let _ = self.before(&fake);
         emit(epoch, &format!("ev t={tid} k=zero loc=mem lo={lo} hi={} at=lib.rs:clear\n", lo + len));
+      }
+      if len > 0 {
+        let (b, cap, same) = {
+          let g = gl();
+          (g.loc.base, g.loc.cap, g.epoch == epoch)
+        };
+        if same && b != 0 && cap > 0 {
+          // SAFETY: as in `settle_zsnap`
+          let snap = unsafe { std::slice::from_raw_parts(b as *const u8, cap) }.to_vec();
+          let idx = ZEROS.with(|z| z.borrow().len() - 1);
+          ZSNAP.with(|z| *z.borrow_mut() = Some((snap, idx)));
+        }
       }
     }
   }
@@ -616,6 +636,30 @@ impl Hook for SchedHook {
         at_name(a, false)
       );
     }
+  }
+}
+
+/// Widens the latest zero-fill range of this thread to the bytes that really changed since `Hook::zero` returned.
+fn settle_zsnap() {
+  let Some((snap, idx)) = ZSNAP.with(|z| z.borrow_mut().take()) else { return };
+  let (base, cap) = {
+    let g = gl();
+    (g.loc.base, g.loc.cap)
+  };
+  if base == 0 || snap.len() != cap {
+    return;
+  }
+  // SAFETY: only one thread runs at a time, and the arena of a thread that is inside an allocation is mapped
+  let cur = unsafe { std::slice::from_raw_parts(base as *const u8, cap) };
+  let first = (0..cap).find(|i| cur[*i] != snap[*i]);
+  let last = (0..cap).rev().find(|i| cur[*i] != snap[*i]);
+  if let (Some(f), Some(l)) = (first, last) {
+    ZEROS.with(|z| {
+      if let Some(r) = z.borrow_mut().get_mut(idx) {
+        r.0 = r.0.min(f);
+        r.1 = r.1.max(l + 1);
+      }
+    });
   }
 }
 
@@ -669,6 +713,7 @@ fn thread_op(sh: ShPtr, tid: usize, aid: u32, line: &str) -> String {
           || (t.len() >= 5 && t[3] == "0" && (t[2] == "1" || t[4] == "0"));
         // the ranges the arena REALLY zero-filled during this op (Hook::zero)
         let _ = cleared;
+        settle_zsnap();
         for (lo, hi) in ZEROS.with(|z| std::mem::take(&mut *z.borrow_mut())) {
           let _ = writeln!(na, "na t={tid} k=w lo={lo} hi={hi} src=clear");
         }
